@@ -69,6 +69,13 @@ INSTANCES = {
                menu=[dict(tasks=[(1, [], 0, 0), (2, [], 0, 0)], climit=1, max_fails=-1),
                      dict(tasks=[(1, [], 1, 1)], climit=1, max_fails=-1)],
                losses=1, cancels=0, fails=0, launch_fails=0, pf_reserve=0, pf_max=1, modes=["eager"], tier="quick"),
+    # a canceled execution that dies slowly on a 3-cpu worker: the next 2-cpu task is refused (request shape blocked), a 1-cpu
+    # task ends in between, the shape has to be re-enabled when the resources finally come back
+    "R": dict(workers=[3], classes=[2, 1], slow_stop=True,
+              menu=[dict(tasks=[(1, [], 0, 0)], climit=0, max_fails=-1),
+                    dict(tasks=[(1, [], 1, 0), (2, [], 1, 0)], climit=0, max_fails=-1),
+                    dict(tasks=[(1, [], 0, 0)], climit=0, max_fails=-1)],
+              losses=0, cancels=2, fails=0, launch_fails=0, pf_reserve=0, pf_max=1, modes=["eager"], tier="quick"),
     # restart from the journal at every crash point (journal kept as history variable, so the instance is tiny):
     # dependency + job failure limit 0 + crash limit 2, two losses, a failure, a cancel
     "J": dict(workers=[1, 1], classes=[1], journaling=True,
@@ -155,7 +162,7 @@ def cfg_text(name, inst, mode, spec="Spec", extra_inv=()):
              f"  WorkerCpus <- {name}_Workers", f"  LateWorkers <- {name}_Late", f"  WorkerGroup <- {name}_Groups", f"  WorkerLife <- {name}_Life", f"  MaxTicks = {inst.get('ticks', 0)}", f"  Menu <- {name}_Menu", f"  OpenJobs <- {name}_Open", f"  Classes <- {name}_Classes",
              f"  MaxLosses = {inst['losses']}", f"  MaxCancels = {inst['cancels']}", f"  MaxFails = {inst['fails']}",
              f"  MaxLaunchFails = {inst['launch_fails']}", f"  PfReserve = {inst['pf_reserve']}", f"  PfMax = {inst['pf_max']}",
-             f"  Eager = {'TRUE' if mode == 'eager' else 'FALSE'}", f"  Journaling = {'TRUE' if inst.get('journaling') else 'FALSE'}",
+             f"  Eager = {'TRUE' if mode == 'eager' else 'FALSE'}", f"  Journaling = {'TRUE' if inst.get('journaling') else 'FALSE'}", f"  SlowStop = {'TRUE' if inst.get('slow_stop') else 'FALSE'}",
              "CHECK_DEADLOCK FALSE"]
     if inv:
         lines += ["INVARIANTS"] + ["  " + i for i in inv]
@@ -208,7 +215,7 @@ def profile_of(name):
                      "class": 0, "prio": 0, "crash_limit": s["climit"], "time_limit": s.get("tlimit", 0), "max_fails": s["max_fails"], "stream": False}
                     for s in inst["menu"]],
         "max_submits": len(inst["menu"]), "opens": len(inst.get("open_jobs") or {}), "losses": inst["losses"], "cancels": inst["cancels"], "fails": inst["fails"],
-        "launch_fails": inst["launch_fails"], "stops": 0, "ticks": inst.get("ticks", 0), "forgets": 0, "drain": True, "prunes": 0, "queue_events": 0,
+        "launch_fails": inst["launch_fails"], "stops": 0, "ticks": inst.get("ticks", 0), "forgets": 0, "drain": True, "prunes": 0, "queue_events": 0, "slow_stop": bool(inst.get("slow_stop")),
     }
 
 
@@ -311,7 +318,7 @@ def translate(acts, name=None):
                 out.append({"c": "Cancel", "job": jobmap[a["job"]]})
         elif c == "Connect":
             out.append({"c": "Connect", "kind": lk[a["w"]]})
-        elif c in ("Exit", "FailLaunch"):
+        elif c in ("Exit", "FailLaunch", "Die"):
             j, t = divmod(a["t"], 1000)
             if j not in jobmap:
                 continue
